@@ -1,16 +1,23 @@
 import BufProofs.Lemmas.ConfigRange
 import BufProofs.Lemmas.ConfigGenLemmas
+import BufProofs.Lemmas.ConfigGenNorm
+import BufProofs.Lemmas.ConfigMigrate
+import BufProofs.Lemmas.ConfigStrings
+import BufProofs.Lemmas.ConfigLock
+import BufProofs.Lemmas.ConfigV1
 /-
   C16 — Configuration files round-trip and migration to v2 preserves behaviour.
   Property theorems only; helper lemmas live in BufProofs/Lemmas/Config*.lean.
 
-  `readV2 / readV1 / readLock / readWork` are the readers at the structured level (external
+  `readV2 / readV1 / readLockFile / readWork` are the readers at the structured level (external
   structs -> accessor values, `none` = the reader rejects the document), `writeV2 / writeV1 /
-  writeLock / writeWork` the writers (as coded AFTER the two `fix:` commits), `writeV2Old /
-  writeV1Old` the writers as coded before.
+  writeLockFile / writeWork` the writers (as coded AFTER the two `fix:` commits), `writeV2Old /
+  writeV1Old` the writers as coded before.  buf.gen.yaml: `BufModel.ConfigGen.readGen / writeGen`.
 -/
 namespace BufProofs.C16
 open BufModel.Path BufModel.Config
+
+/-! ### buf.yaml -/
 
 /-- A check configuration (lint or breaking; enabled with ignore / ignore_only paths, or
     disabled because an ignore path named the module itself) that any reader produced for a
@@ -46,38 +53,102 @@ theorem yaml_roundtrip_v2_wf (c : BufYAML) (h : WFFileV2 c) : readV2 (writeV2 c)
 
 theorem read_range_wf (e : ExtV2) (c : BufYAML) (h : readV2 e = some c) : WFFileV2 c := readV2_wf e c h
 
-/-- buf.yaml v1beta1 / v1, partial: the lint and breaking sections of a v1beta1/v1 file round-trip
-    (this is `check_roundtrip` at module directory "." lifted to the lint/breaking records,
-    including the `ignore: [.]` = disabled encoding).  NOT proved here: the build section
-    (v1 excludes, v1beta1 roots × excludes re-joining), name and deps of the v1 writer — those are
-    tied to the implementation by the correspondence (`yaml v1 / v1beta1` protocol lines) only. -/
+/-- **The round trip through the written strings** (buf.yaml v2).  The struct-level model hands
+    the reader a path as `P` (= the outcome of NormalizeAndValidate on the string in the
+    document); the implementation writes strings (`normalpath.Join(moduleDir, rel)`) and
+    validates them again on read.  For every document `e` whose paths came from strings
+    (`ProperP`: each `.ok` path is a list of proper names — `properP_normP`: always true of
+    `normP s`), with `c` what the reader makes of it: rendering every path of the written
+    document to its string and parsing it back (`mapP reparse`, `reparse p = normP p.render`)
+    gives the written document again, hence the reader, fed the STRINGS of the written file,
+    returns `c`. -/
+theorem yaml_roundtrip_strings (e : ExtV2) (c : BufYAML) (he : e.AllP ProperP) (h : readV2 e = some c) :
+    (writeV2 c).mapP reparse = writeV2 c ∧ readV2 ((writeV2 c).mapP reparse) = some c :=
+  readV2_writeV2_strings e c he h
+
+/-- The path-level facts the previous theorem is built on, in terms of the string functions of
+    BufModel.Path (the C13 model of normalpath): for validated module directory `d` and relative
+    path `k`,
+    (1) the string the model renders for the written path is `Join(d, k)`;
+    (2) NormalizeAndValidate reads that string back as the key `d ++ k`;
+    (3) the reader's `EqualsOrContainsPath(d, ·)` / `Rel(d, ·)` on it are `isPrefixOf` / dropping
+        the prefix — i.e. give back `k`.
+    This is what ties `extCheckOf` / `relPaths` (list operations) to Join → string →
+    NormalizeAndValidate → Rel. -/
+theorem written_path_reads_back (d k : Key) (hd : AllProper d) (hk : AllProper k) :
+    (P.ok (d ++ k)).render = join [renderKey d, renderKey k] ∧
+    normP (join [renderKey d, renderKey k]) = .ok (d ++ k) ∧
+    equalsOrContainsPath (renderKey d) (join [renderKey d, renderKey k]) = true ∧
+    rel (renderKey d) (join [renderKey d, renderKey k]) = some (renderKey ((d ++ k).drop d.length)) ∧
+    (d ++ k).drop d.length = k := by
+  have hdk : AllProper (d ++ k) := allProper_append.mpr ⟨hd, hk⟩
+  refine ⟨render_written hd hk, normP_join hd hk, ?_, ?_, drop_append_self d k⟩
+  · rw [join_keys hd hk, ecp_renderKey hd hdk]; exact isPrefixOf_self_append d k
+  · rw [join_keys hd hk]; exact rel_renderKey hd hdk (isPrefixOf_self_append d k)
+
+/-- Conversely every path the reader accepts is a list of proper names and the accepted string
+    normalises to its rendering (so the hypotheses `AllProper` above are met by everything the
+    readers ever see). -/
+theorem accepted_path_is_proper (s : Str) (k : Key) (h : normP s = .ok k) :
+    AllProper k ∧ normalizeAndValidate s = .ok (renderKey k) ∧ normP (renderKey k) = .ok k :=
+  ⟨(normP_ok h).1, (normP_ok h).2.2, normP_renderKey (normP_ok h).1⟩
+
+/-- buf.yaml v1beta1 / v1, the round trip in full: for every external v1beta1 / v1 document the
+    reader accepts (name, deps, build roots and excludes, lint, breaking) reading what the writer
+    produces gives the same configuration. -/
+theorem yaml_roundtrip_v1 (ver : Ver) (hv : ver ≠ .v2) (e : ExtV1) (c : BufYAML) (h : readV1 ver e = some c) :
+    readV1 ver (writeV1 c) = some c :=
+  readV1_writeV1 ver hv e c h
+
+/-- …and writing is idempotent for v1beta1 / v1 files: write ∘ read ∘ write = write. -/
+theorem write_idempotent_v1 (ver : Ver) (hv : ver ≠ .v2) (e : ExtV1) (c c' : BufYAML) (h : readV1 ver e = some c)
+    (h' : readV1 ver (writeV1 c) = some c') : writeV1 c' = writeV1 c := by
+  rw [yaml_roundtrip_v1 ver hv e c h] at h'; cases h'; rfl
+
+/-- The lint and breaking sections of a v1beta1/v1 file on their own (this is `check_roundtrip`
+    at module directory "." lifted to the lint/breaking records, including the `ignore: [.]` =
+    disabled encoding).  Partial by itself — the whole file is `yaml_roundtrip_v1`. -/
 theorem yaml_roundtrip_v1_checks_partial (el : ExtLint) (eb : ExtBreaking) (l : Lint) (b : Breaking)
     (hl : readLint false el [] true = some l) (hb : readBreaking eb [] true = some b) :
     readLint false (extLintOf false l []) [] true = some l ∧
     readBreaking (extBreakingOf b []) [] true = some b :=
   ⟨readLint_extLintOf false l [] true (readLint_wf hl), readBreaking_extBreakingOf b [] true (readBreaking_wf hb)⟩
 
+/-! ### buf.work.yaml, buf.lock -/
+
 /-- buf.work.yaml: c ∈ range read → read (write c) = c. -/
 theorem work_roundtrip (ps : List P) (ds : List Key) (h : readWork ps = some ds) :
     readWork (writeWork ds) = some ds := readWork_rt ps ds h
 
-/-- buf.lock (v1beta1, v1, v2; dependencies with commits and pinned digests):
-    c ∈ range read → read (write c) = c. -/
-theorem lock_roundtrip (ver : Ver) (ds : List ExtLockDep) (l : BufLock) (h : readLock ver ds = some l) :
-    readLock ver (writeLock l) = some l := readLock_rt ver ds l h
+/-- …and through the written strings. -/
+theorem work_roundtrip_strings (ps : List P) (ds : List Key) (hp : ∀ p ∈ ps, ProperP p)
+    (h : readWork ps = some ds) :
+    (writeWork ds).map reparse = writeWork ds ∧ readWork ((writeWork ds).map reparse) = some ds :=
+  readWork_writeWork_strings ps ds hp h
+
+/-- buf.lock (v1beta1, v1, v2): dependencies with commits and pinned digests AND (v2) the
+    `plugins:` section with its pinned p1 digests: c ∈ range read → read (write c) = c. -/
+theorem lock_roundtrip (ver : Ver) (ds : List ExtLockDep) (ps : List ExtLockPlugin) (f : BufLockFile)
+    (h : readLockFile ver ds ps = some f) :
+    readLockFile ver (writeLockFile f).1 (writeLockFile f).2 = some f := readLockFile_rt ver ds ps f h
 
 /-- Writing is idempotent for buf.work.yaml and buf.lock: the second write equals the first. -/
 theorem work_write_idempotent (ps : List P) (ds ds' : List Key) (h : readWork ps = some ds)
     (h' : readWork (writeWork ds) = some ds') : writeWork ds' = writeWork ds := by
   rw [readWork_rt ps ds h] at h'; cases h'; rfl
 
-theorem lock_write_idempotent (ver : Ver) (ds : List ExtLockDep) (l l' : BufLock) (h : readLock ver ds = some l)
-    (h' : readLock ver (writeLock l) = some l') : writeLock l' = writeLock l := by
-  rw [readLock_rt ver ds l h] at h'; cases h'; rfl
+theorem lock_write_idempotent (ver : Ver) (ds : List ExtLockDep) (ps : List ExtLockPlugin) (f f' : BufLockFile)
+    (h : readLockFile ver ds ps = some f)
+    (h' : readLockFile ver (writeLockFile f).1 (writeLockFile f).2 = some f') :
+    writeLockFile f' = writeLockFile f := by
+  rw [readLockFile_rt ver ds ps f h] at h'; cases h'; rfl
+
+/-! ### path re-basing -/
 
 /-- Path re-basing, on validated paths (component lists of proper names): if module directory
     `m` contains `p` then `rel m (join m (rel m p)) = rel m p`, with the functions of
-    BufModel.Path (normalpath.Rel / Join) on the rendered strings. -/
+    BufModel.Path (normalpath.Rel / Join) on the rendered strings.  (`written_path_reads_back`
+    adds NormalizeAndValidate and connects it to the keys the configuration model works on.) -/
 theorem rebase_inverse (m k : Key) (hm : AllProper m) (hk : AllProper k) :
     rel (renderKey m) (renderKey (m ++ k)) = some (renderKey k) ∧
     rel (renderKey m) (join [renderKey m, renderKey k]) = some (renderKey k) := by
@@ -91,62 +162,142 @@ theorem rebase_inverse_keys (m p : Key) (h : m.isPrefixOf p = true) :
   obtain ⟨t, rfl⟩ := List.isPrefixOf_iff_prefix.mp h
   simp
 
-/-- Migration, path level: the v2 module created for root `r` of a v1/v1beta1 module found at
-    `moduleDir` (path = moduleDir/root, the root's excludes kept) owns exactly the files that
-    the root owned: for every file `f` below the module directory, membership before =
-    membership after.  Partial: descriptors and lint/breaking results of the migrated workspace
-    are compared by the correspondence/oracle only (protocompile and the rule implementations
-    are not modelled), and lock-file merging is not modelled. -/
-theorem migrate_preserves_targets_partial (moduleDir : Key) (r : Root) (f : Key) :
-    inV2Module (migrateRoot moduleDir r) (moduleDir ++ f) = inRoot r f := by
-  unfold inV2Module migrateRoot inRoot
-  simp only [List.append_assoc, isPrefixOf_append_left]
+/-! ### migration (path level, whole workspace) -/
 
-/-- A file outside the module directory is never picked up by a migrated module. -/
-theorem migrate_no_foreign_files (moduleDir : Key) (r : Root) (g : Key)
-    (h : moduleDir.isPrefixOf g = false) : inV2Module (migrateRoot moduleDir r) g = false := by
-  unfold inV2Module migrateRoot
-  have : (moduleDir ++ r.root).isPrefixOf g = false := by
-    cases hp : (moduleDir ++ r.root).isPrefixOf g with
-    | false => rfl
-    | true =>
-      obtain ⟨t, rfl⟩ := List.isPrefixOf_iff_prefix.mp hp
-      rw [List.append_assoc, isPrefixOf_self_append] at h; cases h
-  simp [this]
+/-- Before sorting and writing: for EVERY v1/v1beta1 workspace `ws` (any module directories, any
+    roots, includes, excludes — no hypothesis) and every file `f`, the list of (module, root,
+    root-relative path) under which the shared workspace targeting (`owners`, = MapOnPrefix(dir),
+    MapOnPrefix(root), `.proto` / excludes / includes matchers) knows `f` in the migrated module
+    list is the list for the v1 workspace with each (dir, root, p) renamed (dir/root, ".", p) —
+    same order, same multiplicity. -/
+theorem migrate_owners_exact (trL : Lint → Lint) (trB : Breaking → Breaking) (ws : List Module) (f : Key) :
+    owners (migrateWorkspace trL trB ws) f = (owners ws f).map migratedOwner :=
+  owners_migrateWorkspace trL trB ws f
 
+/-- Migration, path level, whole workspace, through the file that is written.  `ws`: the module
+    configs the v1 workspace code uses (one per buf.work.yaml directory / migrated module
+    directory; `dirPath` relative to the destination directory).  If the buf.yaml v2 the migrator
+    builds (`NewBufYAMLFile(v2, one module per root, …)`, which sorts the modules by path) is
+    `c`, then (1) the v2 reader returns exactly `c` from what the v2 writer writes, and (2) for
+    every file path `f` the (module, root, root-relative path) triples under which the v2
+    workspace knows `f` are — up to the order of the modules — those of the v1 workspace renamed
+    (dir, root, p) ↦ (dir/root, ".", p): same files, same module-relative paths, excludes and
+    includes respected on both sides.
+    ASSUMED: `hr` every v1 root's excludes/includes are as the v1 reader produces them
+    (discharged by `migrate_roots_assumption_holds`); `hl`, `hb` the translated lint/breaking
+    configs (`equivalentLint/BreakingConfigInV2`, not modelled: arbitrary functions `trL`, `trB`)
+    are well-formed check configs.
+    PARTIAL w.r.t. the property clause: descriptors and lint/breaking results of the migrated
+    workspace are compared by the correspondence/oracle only (protocompile, rule implementations
+    and rule-id translation are not modelled — and the recorded findings show that clause is
+    false in the implementation); dependency / lock-file merging is not modelled. -/
+theorem migrate_preserves_targets_partial (trL : Lint → Lint) (trB : Breaking → Breaking) (ws : List Module)
+    (deps : List Dep) (c : BufYAML)
+    (hr : ∀ m ∈ ws, WFRootsV1 m) (hl : ∀ m ∈ ws, WFLint (trL m.lint))
+    (hb : ∀ m ∈ ws, WFBreaking (trB m.breaking))
+    (h : migrateFile trL trB ws deps = some c) :
+    readV2 (writeV2 c) = some c ∧
+      ∀ f, (owners c.modules f).Perm ((owners ws f).map migratedOwner) :=
+  migrate_workspace_owners trL trB ws deps c hr hl hb h
+
+/-- The assumption `hr` above holds for everything the v1beta1 / v1 reader returns. -/
+theorem migrate_roots_assumption_holds (ver : Ver) (e : ExtV1) (c : BufYAML) (h : readV1 ver e = some c) :
+    ∀ m ∈ c.modules, WFRootsV1 m := readV1_roots_wf h
+
+/-- An owner triple spells the file: a module never picks up a file outside its directory/root
+    (before or after migration), and the module it is attributed to is one of the workspace. -/
+theorem migrate_no_foreign_files (ms : List Module) (f : Key) (o : Key × Key × Key) (h : o ∈ owners ms f) :
+    f = o.1 ++ o.2.1 ++ o.2.2 ∧ ∃ m ∈ ms, m.dirPath = o.1 := owners_spell h
 
 /-! ### buf.gen.yaml (model: BufModel.ConfigGen; all three versions; the writer always writes v2) -/
 
-/-- buf.gen.yaml, partial: for every document `e` (v1beta1, v1 or v2) the reader accepts whose
-    configuration is representable in the v2 file the writer produces, read (write c) = c —
-    plugins (remote / local / protoc_builtin, opts, strategy, include flags), managed mode
-    (enabled flag, disable and override rules of every option, incl. the translations of the v1
-    sections), inputs of every kind with their options.  EXCLUDED (`Representable`): exactly the
-    five families in which the implementation itself does not round-trip (recorded findings, each
-    with a `…_counterexample` below): plugin types/exclude_types and input exclude_types (not
-    written by the v2 writer), v1 top-level types, v1 name-only plugins (kind resolved at write
-    time), v1 local plugins whose name differs from the path. -/
+/-- **buf.gen.yaml: the exact effect of write + read, for EVERY accepted document of every
+    version.**  `read (write c) = normalise env c`, where `normalise` (BufModel/ConfigGen.lean) is
+    explicit: plugin `types`/`exclude_types` ↦ [], Local plugin name ↦ space-joined path,
+    LocalOrProtocBuiltin plugin ↦ Local `protoc-gen-<name>` or ProtocBuiltin `<name>` (decided at
+    write time by exec.LookPath and protoc's builtin list), v1 `types.include` ↦ [], input
+    `exclude_types` ↦ []; every other field of every plugin, managed rule and input is preserved.
+    The property clause "yields the same configuration" is FALSE in the implementation exactly
+    where `normalise env c ≠ c` (five recorded finding families); see `gen_roundtrip_iff`. -/
+theorem gen_reread_eq_normalise (env : BufModel.ConfigGen.Env) (e : BufModel.ConfigGen.ExtGen)
+    (c : BufModel.ConfigGen.GenFile) (h : BufModel.ConfigGen.readGen env e = some c) :
+    BufModel.ConfigGen.readGen env (.v2 (BufModel.ConfigGen.writeGen env c)) =
+      some (BufModel.ConfigGen.normalise env c) :=
+  BufModel.ConfigGen.gen_reread_eq_normalise h
+
+/-- `normalise` is idempotent (a projection) … -/
+theorem gen_normalise_idempotent (env : BufModel.ConfigGen.Env) (c : BufModel.ConfigGen.GenFile) :
+    BufModel.ConfigGen.normalise env (BufModel.ConfigGen.normalise env c) = BufModel.ConfigGen.normalise env c :=
+  BufModel.ConfigGen.normalise_idem env c
+
+/-- … so from the second round trip on nothing changes any more: for every accepted document, the
+    re-read configuration `c'` is itself read back unchanged. -/
+theorem gen_second_roundtrip (env : BufModel.ConfigGen.Env) (e : BufModel.ConfigGen.ExtGen)
+    (c c' : BufModel.ConfigGen.GenFile) (h : BufModel.ConfigGen.readGen env e = some c)
+    (h' : BufModel.ConfigGen.readGen env (.v2 (BufModel.ConfigGen.writeGen env c)) = some c') :
+    BufModel.ConfigGen.readGen env (.v2 (BufModel.ConfigGen.writeGen env c')) = some c' := by
+  rw [BufModel.ConfigGen.gen_reread_eq_normalise h']
+  rw [BufModel.ConfigGen.gen_reread_eq_normalise h] at h'
+  injection h' with h'
+  rw [← h', BufModel.ConfigGen.normalise_idem]
+
+/-- Exactly when the round trip is the identity: for a configuration a reader produced,
+    `read (write c) = c` iff `c` is `Representable` (no undetermined plugin kind, local plugin
+    names equal to the joined path, no plugin types/exclude_types, no v1 types.include, no input
+    exclude_types). -/
+theorem gen_roundtrip_iff (env : BufModel.ConfigGen.Env) (e : BufModel.ConfigGen.ExtGen)
+    (c : BufModel.ConfigGen.GenFile) (h : BufModel.ConfigGen.readGen env e = some c) :
+    BufModel.ConfigGen.readGen env (.v2 (BufModel.ConfigGen.writeGen env c)) = some c ↔
+      BufModel.ConfigGen.Representable c :=
+  BufModel.ConfigGen.gen_roundtrip_iff h
+
+/-- buf.gen.yaml identity round trip, partial: `read (write c) = c` for the accepted documents
+    whose configuration is `Representable`.  COVERAGE (each an `iff` below, stated on the
+    document): v2 documents — exactly those without plugin `types`/`exclude_types` and input
+    `exclude_types` (`gen_roundtrip_v2_iff`); v1 documents — exactly those without `types.include`
+    whose plugins are all remote, or local with identifier = joined path, or protoc builtins with
+    `protoc_path` (`gen_roundtrip_v1_iff`): NOT the ordinary `plugin: go` / `name: go`;
+    v1beta1 documents — only those in which every plugin has `path` and `name = path`
+    (`gen_roundtrip_v1beta1_iff`): no ordinary v1beta1 document.  For all other accepted
+    documents the exact statement is `gen_reread_eq_normalise`. -/
 theorem gen_roundtrip_partial (env : BufModel.ConfigGen.Env) (e : BufModel.ConfigGen.ExtGen) (c : BufModel.ConfigGen.GenFile)
     (h : BufModel.ConfigGen.readGen env e = some c) (hr : BufModel.ConfigGen.Representable c) :
     BufModel.ConfigGen.readGen env (.v2 (BufModel.ConfigGen.writeGen env c)) = some c :=
   BufModel.ConfigGen.gen_roundtrip_partial h hr
 
-/-- v2 documents without plugin types and input exclude_types round-trip (hypothesis on the
-    document only). -/
-theorem gen_roundtrip_v2 (env : BufModel.ConfigGen.Env) (d : BufModel.ConfigGen.ExtGenV2) (c : BufModel.ConfigGen.GenFile)
-    (h : BufModel.ConfigGen.readGen env (.v2 d) = some c)
-    (hp : ∀ x ∈ d.plugins, x.types = [] ∧ x.excludeTypes = [])
-    (hi : ∀ x ∈ d.inputs, x.excludeTypes = []) :
-    BufModel.ConfigGen.readGen env (.v2 (BufModel.ConfigGen.writeGen env c)) = some c :=
-  BufModel.ConfigGen.gen_roundtrip_v2 h hp hi
+/-- v2 documents: identity round trip iff no plugin `types`/`exclude_types` and no input
+    `exclude_types` (hypothesis on the document only). -/
+theorem gen_roundtrip_v2_iff (env : BufModel.ConfigGen.Env) (d : BufModel.ConfigGen.ExtGenV2) (c : BufModel.ConfigGen.GenFile)
+    (h : BufModel.ConfigGen.readGen env (.v2 d) = some c) :
+    BufModel.ConfigGen.readGen env (.v2 (BufModel.ConfigGen.writeGen env c)) = some c ↔
+      ((∀ x ∈ d.plugins, x.types = [] ∧ x.excludeTypes = []) ∧ ∀ x ∈ d.inputs, x.excludeTypes = []) :=
+  BufModel.ConfigGen.gen_roundtrip_v2_iff h
 
-theorem gen_write_idempotent_partial (env : BufModel.ConfigGen.Env) (e : BufModel.ConfigGen.ExtGen) (c c' : BufModel.ConfigGen.GenFile)
-    (h : BufModel.ConfigGen.readGen env e = some c) (hr : BufModel.ConfigGen.Representable c)
+/-- v1 documents: identity round trip iff no `types.include` and every plugin entry is
+    `RepPluginV1` (remote / local with identifier = joined path / protoc builtin with protoc_path). -/
+theorem gen_roundtrip_v1_iff (env : BufModel.ConfigGen.Env) (d : BufModel.ConfigGen.ExtGenV1) (c : BufModel.ConfigGen.GenFile)
+    (h : BufModel.ConfigGen.readGen env (.v1 d) = some c) :
+    BufModel.ConfigGen.readGen env (.v2 (BufModel.ConfigGen.writeGen env c)) = some c ↔
+      (d.typesInclude = [] ∧ ∀ x ∈ d.plugins, BufModel.ConfigGen.RepPluginV1 env x) :=
+  BufModel.ConfigGen.gen_roundtrip_v1_iff h
+
+/-- v1beta1 documents: identity round trip iff every plugin has a `path` and `name = path`. -/
+theorem gen_roundtrip_v1beta1_iff (env : BufModel.ConfigGen.Env) (d : BufModel.ConfigGen.ExtGenV1Beta1) (c : BufModel.ConfigGen.GenFile)
+    (h : BufModel.ConfigGen.readGen env (.v1beta1 d) = some c) :
+    BufModel.ConfigGen.readGen env (.v2 (BufModel.ConfigGen.writeGen env c)) = some c ↔
+      ∀ x ∈ d.plugins, x.path ≠ [] ∧ x.name = x.path :=
+  BufModel.ConfigGen.gen_roundtrip_v1beta1_iff h
+
+/-- Writing buf.gen.yaml is idempotent for EVERY accepted document of every version (no
+    representability hypothesis): the second write equals the first. -/
+theorem gen_write_idempotent (env : BufModel.ConfigGen.Env) (e : BufModel.ConfigGen.ExtGen) (c c' : BufModel.ConfigGen.GenFile)
+    (h : BufModel.ConfigGen.readGen env e = some c)
     (h' : BufModel.ConfigGen.readGen env (.v2 (BufModel.ConfigGen.writeGen env c)) = some c') :
     BufModel.ConfigGen.writeGen env c' = BufModel.ConfigGen.writeGen env c :=
-  BufModel.ConfigGen.gen_write_idempotent_partial h hr h'
+  BufModel.ConfigGen.gen_write_idempotent h h'
 
-/-- The five families that do not round-trip as coded (recorded findings). -/
+/-- A document on which the implementation's round trip is not the identity (one of the five
+    recorded families; the others are `decide` witnesses in ConfigGenLemmas). -/
 theorem gen_not_roundtrip_counterexample :
     (∃ e, (BufModel.ConfigGen.readGen BufModel.ConfigGen.env0 e).isSome = true ∧
         BufModel.ConfigGen.reread BufModel.ConfigGen.env0 e ≠ BufModel.ConfigGen.readGen BufModel.ConfigGen.env0 e) :=
@@ -198,7 +349,66 @@ example : ∃ c, readV2 ⟨⟨[], true⟩, [⟨P.ok (k "a"), ⟨[], true⟩, [],
     (writeV2 c).lint.chk.use = ["BASIC".toList] ∧ readV2 (writeV2 c) = some c := ⟨_, rfl, by decide, by decide⟩
 example : readWork [P.ok (k "proto"), P.ok (k "api")] = some [k "api", k "proto"] := by decide
 example : readWork [P.ok (k "proto"), P.ok [("proto").toList, "x".toList]] = none := by decide
-example : inRoot ⟨k "src", [], [k "gen"]⟩ ["src".toList, "a.proto".toList] = true := by decide
-example : inRoot ⟨k "src", [], [k "gen"]⟩ ["src".toList, "gen".toList, "a.proto".toList] = false := by decide
+
+-- `yaml_roundtrip_strings`: the hypotheses hold for a document built from strings; the path
+-- "./proto//x/" is read as the key [proto, x] and written back as "proto/x"
+example : normP "./proto//x/".toList = .ok ["proto".toList, "x".toList] := by decide
+example : (P.ok ["proto".toList, "x".toList]).render = "proto/x".toList := by decide
+example : disabledWitness.AllP ProperP := by
+  refine ⟨?_, ⟨?_, ?_⟩, ⟨?_, ?_⟩⟩ <;> simp [disabledWitness, ExtLint.zero, ExtBreaking.zero, ExtCheck.zero, ExtModule.AllP, ExtCheck.AllP, ProperP, k] <;> decide
+
+-- `rebase_inverse` / `written_path_reads_back`: hypotheses satisfiable, conclusion concrete
+example : AllProper (k "proto") ∧ AllProper (k "vendor") := by decide
+example : rel "proto".toList (join ["proto".toList, "vendor".toList]) = some "vendor".toList := by decide
+example : normP (join ["proto".toList, "vendor".toList]) = .ok ["proto".toList, "vendor".toList] := by decide
+
+-- `yaml_roundtrip_v1` / `yaml_roundtrip_v1_checks_partial`: a v1beta1 file with two roots and an
+-- exclude below one of them, lint disabled by `ignore: [.]`
+def v1beta1Witness : ExtV1 :=
+  ⟨⟨[], true⟩, [], [P.ok (k "src"), P.ok (k "lib")], [P.ok ["src".toList, "gen".toList]],
+    ⟨⟨[], [], [P.ok []], [], false⟩, [], false, false, false, [], false⟩,
+    ⟨⟨["FILE".toList], [], [P.ok ["src".toList, "old".toList]], [], false⟩, true⟩⟩
+example : ∃ c, readV1 .v1beta1 v1beta1Witness = some c ∧
+    (c.modules.map fun m => m.roots.map fun r => (r.root, r.excludes)) = [[(k "lib", []), (k "src", [k "gen"])]] ∧
+    (c.modules.map (·.lint.chk.disabled)) = [true] ∧
+    readV1 .v1beta1 (writeV1 c) = some c := ⟨_, rfl, by decide, by decide, by decide⟩
+example : ∃ l b, readLint false v1beta1Witness.lint [] true = some l ∧
+    readBreaking v1beta1Witness.breaking [] true = some b ∧ l.chk.disabled = true ∧
+    b.chk.ignore = [["src".toList, "old".toList]] := ⟨_, _, rfl, rfl, by decide, by decide⟩
+
+-- `lock_roundtrip` / `lock_write_idempotent`: a v2 lock with one dep and two plugins (sorted on read)
+def lockWitnessDeps : List ExtLockDep :=
+  [⟨"buf.build".toList, "acme".toList, "weather".toList, true, "c0".toList, true, "b5:00".toList, .b5⟩]
+def lockWitnessPlugins : List ExtLockPlugin :=
+  [⟨"buf.build/acme/z".toList, true, "c2".toList, true, "p1:02".toList, true⟩,
+   ⟨"buf.build/acme/a".toList, true, "c1".toList, true, "p1:01".toList, true⟩]
+example : ∃ f, readLockFile .v2 lockWitnessDeps lockWitnessPlugins = some f ∧
+    f.plugins.map (·.name) = ["buf.build/acme/a".toList, "buf.build/acme/z".toList] ∧
+    f.lock.deps.length = 1 ∧
+    readLockFile .v2 (writeLockFile f).1 (writeLockFile f).2 = some f := ⟨_, rfl, by decide, by decide, by decide⟩
+-- plugins are rejected in a v1 lock, duplicates and b4 digests in a v2 lock
+example : readLockFile .v1 [] lockWitnessPlugins = none := by decide
+example : readLockFile .v2 [] (lockWitnessPlugins ++ lockWitnessPlugins) = none := by decide
+example : readLockFile .v2 [⟨"buf.build".toList, "acme".toList, "weather".toList, true, "c0".toList, true, "shake256:00".toList, .b4⟩] [] = none := by decide
+
+-- migration: a workspace with a two-root v1beta1 module at "proto" (as read from v1beta1Witness)
+-- and a v1 module at "api"; the hypotheses of `migrate_preserves_targets_partial` hold and the
+-- owners of concrete files are as expected before and after
+def dfltLint : Lint := ⟨⟨false, [], [], [], [], false⟩, [], false, false, false, [], false⟩
+def dfltBreaking : Breaking := ⟨⟨false, [], [], [], [], false⟩, false⟩
+def wsWitness : List Module :=
+  [⟨k "proto", [], [⟨k "lib", [], []⟩, ⟨k "src", [], [k "gen"]⟩], dfltLint, dfltBreaking⟩,
+   ⟨k "api", [], [⟨[], [], [k "tmp"]⟩], dfltLint, dfltBreaking⟩]
+example : ∃ c, migrateFile id id wsWitness [] = some c ∧
+    c.modules.map (·.dirPath) = [k "api", ["proto".toList, "lib".toList], ["proto".toList, "src".toList]] := ⟨_, rfl, by decide⟩
+example : owners wsWitness ["proto".toList, "src".toList, "a".toList, "x.proto".toList] =
+    [(k "proto", k "src", ["a".toList, "x.proto".toList])] := by decide
+example : owners (migrateWorkspace id id wsWitness) ["proto".toList, "src".toList, "a".toList, "x.proto".toList] =
+    [(["proto".toList, "src".toList], [], ["a".toList, "x.proto".toList])] := by decide
+example : owners wsWitness ["proto".toList, "src".toList, "gen".toList, "x.proto".toList] = [] := by decide
+example : owners (migrateWorkspace id id wsWitness) ["proto".toList, "src".toList, "gen".toList, "x.proto".toList] = [] := by decide
+example : owners wsWitness ["proto".toList, "other".toList, "x.proto".toList] = [] := by decide
+example : ∃ c, readV1 .v1beta1 v1beta1Witness = some c ∧ ∀ m ∈ c.modules, WFRootsV1 m :=
+  ⟨_, rfl, migrate_roots_assumption_holds .v1beta1 v1beta1Witness _ rfl⟩
 
 end BufProofs.C16
